@@ -119,27 +119,31 @@ def _is_shell(o):
     return all(hasattr(type(o), k) for k in ("angmom", "exps", "coeffs", "coord")) and hasattr(o, "norm_cont") and not isinstance(o, type)
 
 
-def digest(o, _depth=0):
-    """Bitwise, structure-preserving digest of an argument object graph."""
+def digest(o, _depth=0, rep=False):
+    """Bitwise, structure-preserving digest of an argument object graph. ``rep=True`` (argument sentinels) includes the
+    in-memory representation of every array (strides, write flag) next to its values, shape and dtype."""
     if isinstance(o, np.ndarray):
         h = hashlib.sha1()
         try:
             h.update(np.ascontiguousarray(o).tobytes())
         except Exception:  # object arrays
             h.update(repr(o.tolist()).encode())
+        # values AND representation: an argument whose write flag, dtype, shape or strides changed was modified too
+        if rep:
+            return ("nd", o.shape, str(o.dtype), o.strides, bool(o.flags.writeable), h.hexdigest())
         return ("nd", o.shape, str(o.dtype), h.hexdigest())
     if isinstance(o, (list, tuple)):
-        return (type(o).__name__, tuple(digest(x, _depth + 1) for x in o))
+        return (type(o).__name__, tuple(digest(x, _depth + 1, rep) for x in o))
     if isinstance(o, dict):
-        return ("dict", tuple((repr(k), digest(v, _depth + 1)) for k, v in sorted(o.items(), key=lambda kv: repr(kv[0]))))
+        return ("dict", tuple((repr(k), digest(v, _depth + 1, rep)) for k, v in sorted(o.items(), key=lambda kv: repr(kv[0]))))
     if _is_shell(o):
         # observable state of a shell = its public parameters (a correctly invalidated private memo is not a
         # modification of the shell; a stale one is caught by the fresh-rebuild oracle of C19)
-        return ("shell", type(o).__name__, tuple((k, digest(getattr(o, k, None), _depth + 1)) for k in SHELL_PUBLIC))
+        return ("shell", type(o).__name__, tuple((k, digest(getattr(o, k, None), _depth + 1, rep)) for k in SHELL_PUBLIC))
     if hasattr(o, "__dict__") and not callable(o) and _depth < 6:
         return (
             "obj", type(o).__name__,
-            tuple((k, digest(v, _depth + 1)) for k, v in sorted(vars(o).items())),
+            tuple((k, digest(v, _depth + 1, rep)) for k, v in sorted(vars(o).items())),
         )
     return ("val", repr(o))
 
@@ -181,12 +185,12 @@ def fpstate():
 # ------------------------------------------------------------------------------- conditions
 def _make_public_contract(fn, name):
     def pre_state(_ARGS, _KWARGS):
-        return (digest(_ARGS), digest(_KWARGS), fpstate())
+        return (digest(_ARGS, rep=True), digest(_KWARGS, rep=True), fpstate())
 
     def post_state(_ARGS, _KWARGS, result, OLD):
         STATE.count("eval:" + name)
         dargs, dkw, fp = OLD.pre
-        if dargs != digest(_ARGS) or dkw != digest(_KWARGS):
+        if dargs != digest(_ARGS, rep=True) or dkw != digest(_KWARGS, rep=True):
             STATE.fire("M-pure", "C19", name, "argument digest changed across a returning call")
         STATE.count("M-pure")
         if fp != fpstate():
@@ -244,7 +248,7 @@ def _guard(contracted, name):
                 return contracted(*args, **kwargs)
             finally:
                 STATE.depth -= 1
-        pre = (digest(args), digest(kwargs), fpstate())
+        pre = (digest(args, rep=True), digest(kwargs, rep=True), fpstate())
         STATE.depth += 1
         try:
             out = contracted(*args, **kwargs)
@@ -256,7 +260,7 @@ def _guard(contracted, name):
         except BaseException as exc:
             STATE.count("raise:" + name)
             STATE.count("M-pure-raise")
-            if pre[0] != digest(args) or pre[1] != digest(kwargs):
+            if pre[0] != digest(args, rep=True) or pre[1] != digest(kwargs, rep=True):
                 STATE.fire("M-pure", "C19", name, "argument digest changed across a raising call (%s)" % type(exc).__name__)
             if pre[2] != fpstate():
                 STATE.fire(
